@@ -117,6 +117,25 @@ fn oracle_of(events: &[(&'static str, String)]) -> Vec<String> {
 
 struct FileSpec { data: Vec<u8>, parts: Vec<usize> }
 
+/// A heavily fragmented file: 150 times [a stretch of new bytes ++ three whole chunks from a random place of an earlier file].
+/// After 128 short ranges the deduper's fragmentation prevention withholds the short dedup runs (the chunks are stored again).
+fn gen_fragmented(rng: &mut Rng, target: usize, world_files: &[Vec<u8>]) -> Option<FileSpec> {
+    let (min_c, max_c) = (target / *MINIMUM_CHUNK_DIVISOR, target * *MAXIMUM_CHUNK_MULTIPLIER);
+    let f = world_files.iter().filter(|f| f.len() >= 12 * target).max_by_key(|f| f.len())?;
+    let lens = crate::suites::chunker::reference_split(f, min_c, max_c, crate::suites::chunker::mask_of(target));
+    if lens.len() < 10 { return None; }
+    let mut data = Vec::new();
+    for _ in 0..rng.range(140, 170) {
+        let n = rng.range(target as u64, 2 * target as u64) as usize;
+        data.extend_from_slice(&rng.bytes(n));
+        let i = rng.below(lens.len() as u64 - 4) as usize;
+        let s0: usize = lens[..i].iter().sum(); let s1: usize = lens[..i + 3].iter().sum();
+        data.extend_from_slice(&f[s0..s1]);
+    }
+    let parts = if rng.chance(1, 2) { vec![data.len()] } else { let a = rng.below(data.len() as u64 + 1) as usize; vec![a, data.len() - a] };
+    Some(FileSpec { data, parts })
+}
+
 fn gen_file(rng: &mut Rng, target: usize, pool: &mut Vec<Vec<u8>>, world_files: &[Vec<u8>], force_aligned: bool) -> FileSpec {
     // sizes: empty, sub-chunk, a few chunks, many chunks
     let kind = rng.below(10);
@@ -235,11 +254,17 @@ pub fn run_child(ctx: &mut Ctx) {
             // the third session of a world re-uploads earlier files unchanged (C11)
             let reupload = sno >= 1 && rng.chance(1, 2) && !world_files.is_empty();
             // one later session in five consists ONLY of files made of stored chunks (new file hashes, not one new chunk in the session)
-            let all_known = !reupload && sno >= 1 && rng.chance(1, 4) && !world_files.is_empty();
+            let frag_forced = sno == 1 && w % 2 == 0 && target <= 2048;
+            let all_known = !frag_forced && !reupload && sno >= 1 && rng.chance(1, 4) && !world_files.is_empty();
             if all_known { ctx.stat("sessions_of_fully_deduplicated_new_files"); }
             let nfiles = rng.range(1, 5) as usize;
             let mut specs: Vec<FileSpec> = Vec::new();
             if sno == 0 { if let Some(d) = dry_file.take() { let l = d.len(); specs.push(FileSpec { data: d, parts: vec![l] }); } }
+            // every other world: a large fresh file in the first session and a heavily fragmented one built from it in the second
+            if sno == 0 && w % 2 == 0 && target <= 2048 { let n = rng.range(30 * target as u64, 50 * target as u64) as usize; let d = rng.bytes(n); specs.push(FileSpec { data: d, parts: vec![n] }); }
+            if frag_forced || (sno >= 1 && !reupload && !all_known && target <= 2048 && rng.chance(1, 4)) {
+                if let Some(sp) = gen_fragmented(&mut rng, target, &world_files) { specs.push(sp); ctx.stat("heavily_fragmented_files"); }
+            }
             for i in 0..nfiles {
                 let spec = if reupload && i < world_files.len() { let d = world_files[rng.below(world_files.len() as u64) as usize].clone(); let l = d.len(); FileSpec { data: d, parts: vec![l] } }
                            else { gen_file(&mut rng, target, &mut pool, &world_files, all_known) };
@@ -247,6 +272,8 @@ pub fn run_child(ctx: &mut Ctx) {
                 if specs.iter().any(|s: &FileSpec| s.data == spec.data) { continue; }
                 specs.push(spec);
             }
+            // one file in four goes through `data_client::clean_file` (from disk) instead of direct add_data calls
+            let via_clean_file: Vec<bool> = specs.iter().map(|s| !s.data.is_empty() && rng.chance(1, 4)).collect();
             // run the cleaners: sequentially, or two at a time with interleaved add_data calls
             let interleave = rng.chance(1, 3) && specs.len() >= 2;
             let mut done: Vec<Done> = Vec::new();
@@ -254,8 +281,26 @@ pub fn run_child(ctx: &mut Ctx) {
             let mut results: BTreeMap<usize, Done> = BTreeMap::new();
             let mut idx = 0;
             while idx < specs.len() {
-                let group: Vec<usize> = if interleave && idx + 1 < specs.len() { vec![idx, idx + 1] } else { vec![idx] };
+                let group: Vec<usize> = if interleave && idx + 1 < specs.len() && !via_clean_file[idx] && !via_clean_file[idx + 1] { vec![idx, idx + 1] } else { vec![idx] };
                 idx += group.len();
+                if via_clean_file[group[0]] {
+                    // the file-reading entry point `data_client::clean_file`: reads the file in ingestion-block sized pieces
+                    let g = group[0];
+                    let spec = &specs[g];
+                    let path = base.join(format!("cf-{sno}-{g}.bin"));
+                    std::fs::write(&path, &spec.data).unwrap();
+                    let (s2, p2) = (session.clone(), path.clone());
+                    let r = tp.external_run_async_task(async move { data::data_client::clean_file(s2, &p2).await }).unwrap();
+                    let _ = std::fs::remove_file(&path);
+                    let (pointer, metrics) = match r { Ok(x) => x, Err(e) => { ctx.fail("C01", "clean-file-failed", format!("clean_file failed on a readable file of {} bytes: {e}", spec.data.len()), replay.clone()); continue; } };
+                    let oracle = oracle_of(&take_events());
+                    completion_order.push(g);
+                    let sha = Sha256::digest(&spec.data).iter().map(|b| format!("{b:02x}")).collect::<String>();
+                    let parts: Vec<usize> = spec.data.chunks(ingest).map(|c| c.len()).collect();
+                    if parts.len() >= 2 && spec.data.len() % ingest != 0 { ctx.stat("files_through_clean_file_with_a_partial_last_block"); } else { ctx.stat("files_through_clean_file_other"); }
+                    results.insert(g, Done { pointer, metrics, oracle, spec: FileSpec { data: spec.data.clone(), parts }, sha });
+                    continue;
+                }
                 let mut cleaners: Vec<_> = group.iter().map(|g| Some(session.start_clean(format!("f{g}")))).collect();
                 let mut oracles: Vec<Vec<String>> = vec![Vec::new(); group.len()];
                 let mut pos: Vec<usize> = vec![0; group.len()];
@@ -305,6 +350,8 @@ pub fn run_child(ctx: &mut Ctx) {
                 let m = &d.metrics;
                 sum.merge_in(m);
                 if m.total_bytes != d.spec.data.len() || d.pointer.filesize() as usize != d.spec.data.len() { ctx.fail("C14", "metrics-double-count", format!("pointer size {} / total_bytes {} != bytes fed {}", d.pointer.filesize(), m.total_bytes, d.spec.data.len()), replay.clone()); }
+                if d.pointer.filesize() as usize != d.spec.data.len() { ctx.fail("C03", "pointer-size-differs-from-bytes-fed", format!("the pointer of a file of {} bytes records size {} ({} bytes of it had their deduplication withheld by fragmentation prevention; session {sno} of the world)", d.spec.data.len(), d.pointer.filesize(), m.defrag_prevented_dedup_bytes), replay.clone()); }
+                if m.defrag_prevented_dedup_chunks > 0 { ctx.stat("files_with_dedup_withheld_by_fragmentation_prevention"); }
                 // C03: the pointer depends on the bytes only: equal to the one-shot chunking of the bytes hashed with the salt, and equal
                 // for equal bytes wherever / however they were cleaned before in this store
                 {
